@@ -415,7 +415,7 @@ def case_source(prop, name, progast, nparams, pv, kind, data, what, path, extra=
         check = '    let n = query.run().take(LIMIT).count();\n    assert_eq!(n, LIMIT);\n'
     elif kind == 'reified':
         names = ', '.join('"%s"' % n for n in data)
-        check = ('    for r in query.run().take(LIMIT) {\n        let s = format!("{}", r.q);\n'
+        check = ('    for r in query.run().take(LIMIT) {\n        let mut s = format!("{} {}", r.q, r);\n        for c in r.q.constraints() { s.push_str(&format!(" {}", c)); }\n'
                  '        for tok in s.split(|c: char| !(c.is_alphanumeric() || c == \'_\')) {\n'
                  '            assert!(![%s].contains(&tok), "answer `{}` mentions the program variable {}", s, tok);\n        }\n    }\n' % names)
     elif kind == 'ccount':
